@@ -550,7 +550,22 @@ static std::string run_case(const std::string &line)
                     cd rn = pevald(N, m.z, &sn), rd = pevald(D, m.z, &sd);
                     bool pole = m.exact ? peval(D, m.q).zero() : std::abs(rd) <= 1e-9 * (sd + 1e-300);
                     bool root = m.exact ? peval(N, m.q).zero() : std::abs(rn) <= 1e-9 * (sn + 1e-300);
-                    if (pole) { o = std::string(m.exact ? "pole-returned:" : "irrational-pole-returned:") + m.e->__str__().substr(0, 80) + " is a zero of the denominator"; break; }
+                    if (pole) {
+                        // is the pole, as a tree, a member of the library's own solve(den)?  Then
+                        // the set difference was not taken at all; otherwise the denominator's
+                        // root is written in another closed form and set_complement missed it
+                        bool same_tree = false;
+                        try {
+                            RCP<const Set> ds = solve(den, x);
+                            if (is_a<FiniteSet>(*ds))
+                                for (auto &e : down_cast<const FiniteSet &>(*ds).get_container())
+                                    if (eq(*e, *m.e)) same_tree = true;
+                        } catch (...) {
+                        }
+                        o = std::string(same_tree ? "pole-returned:" : "pole-other-closed-form:") + m.e->__str__().substr(0, 80)
+                            + " is a zero of the denominator";
+                        break;
+                    }
                     if (!root) { o = "nonroot:" + m.e->__str__().substr(0, 80); break; }
                     int dm = m.exact ? dom_member_exact(d, m.q) : dom_member(d, m.z);
                     if (dm < 0) amb = true;
